@@ -6,8 +6,10 @@ PROP = "C01"
 MODULE = "GmqttVerif.Properties.C01"
 THEOREMS = ["GmqttVerif.Deliver.deliver_overlap_exact", "GmqttVerif.Deliver.deliver_onlyonce_exact",
             "GmqttVerif.Deliver.deliver_nothing_unmatched", "GmqttVerif.Deliver.matched_iff",
-            "GmqttVerif.Broker.publish_ack_same_id", "GmqttVerif.Broker.per_publisher_order"]
+            "GmqttVerif.Broker.publish_ack_same_id", "GmqttVerif.Broker.per_publisher_order",
+            "GmqttVerif.C01.deliver_runs_under_server_mu"]
 COMPS = ["broker"]
+NEEDS_FACTS = ["MuHeld"]
 
 FILTERS = ["a", "a/b", "a/+", "a/#", "#", "+", "+/b", "+/+", "a/b/#", "a//b", "a/+/b", "/", "+/", "b", "$x/a", "$x/#", "$x/+", "a/b/c", "/#"]
 TOPICS = ["a", "a/b", "a/b/c", "b", "a/", "a//b", "$x/a", "$x", "/", "a/c", "c", "a/b/", "/b"]
